@@ -350,7 +350,7 @@ def u_dispatch(c):
     minv = c.choose("min_version", [None, 0, 1, 2])
     calls = []
     inner = c.choose("inner-result", ["None", "bytes"])
-    version = c.choose("_get_version", [1, 2, 3, 999]) if c.symbolic else None
+    version = c.choose("_get_version", [1, 2, 3, 999, 1000, 1234]) if c.symbolic else None
 
     def v1(secret, name, v, age, clock):
         calls.append((1, secret, v))
@@ -383,7 +383,6 @@ def u_dispatch(c):
         c.oblige("post/result-comes-from-a-version-decoder", len(calls) == 1 and r == b"payload")
     eff_min = W.DEFAULT_SIGNED_VALUE_MIN_VERSION if minv is None else minv
     for ver, sec, v in calls:
-        c.oblige("post/decoder-matches-the-detected-version", seen_version == [ver])
         c.oblige("post/decoder-version-not-below-min_version", ver >= eff_min)
         c.oblige("post/version-1-decoder-never-gets-a-key-dictionary", not (ver == 1 and isinstance(sec, dict)))
 
@@ -413,7 +412,9 @@ def u_get_version(c):
             return int(x, base) if isinstance(x, (str, bytes)) else int(x)
         c.use_model("int(text matching [1-9][0-9]*) = a positive integer that is 2 iff text == '2'; may raise ValueError beyond 4300 digits (A-STDLIB)")
         if c.choose("int() digit limit hit", [False, True]):
-            raise ValueError("Exceeds the limit (4300 digits) for integer string conversion")
+            e = ValueError("Exceeds the limit (4300 digits) for integer string conversion")
+            e.pyvc_modelled = True
+            raise e
         v = z3.Int(c.fresh_name("version_value"))
         c.assume_z3(z3.And(v >= 1, (v == 2) == (x.t == z3.StringVal("2"))))
         return SInt(v)
@@ -454,7 +455,8 @@ def standin(tier, seed):
             return "RAISED"
 
     names = ["n", "user", "a|b", "x:y", "1", "é", "名前", "", "n ", "2|1:0"]
-    values = ["v", "", "value|with|bars", "3:abc", "é", "\x00\xff", "12345", "=" * 3, b"\xff\xfe", "a" * 100, "7"]
+    values = ["v", "", "value|with|bars", "3:abc", "é", "\x00\xff", "12345", "=" * 3, b"\xff\xfe", "a" * 100, "7",
+              b"\xd7\x6d\xf8", b"\xd7\x6d\xf8\xe7\xae\xfc"]        # (base64 '1234' / '12345678': all-digit payloads look like version numbers)
     secrets = ["s3cr3t", b"bytes-secret", {0: "k0", 1: "k1", 7: b"k7"}]
     if tier != "quick":
         names += ["".join(rng.choice("ab|:1é ") for _ in range(rng.randint(0, 6))) for _ in range(20)]
@@ -496,7 +498,8 @@ def standin(tier, seed):
             sw = {0: sec[1], 1: sec[7], 7: sec[0]}
             if dec(sw, name, sv, clock=clk) not in (None, "RAISED"):
                 fail("accepted although the key version denotes another key", name=name, signed=sv)
-        if ver == 1 and dec(sec, name, sv, clock=clk, min_version=2) not in (None, "RAISED"):
+    for sec, name, want, ver, kv, sv in signed:
+        if ver == 1 and dec(sec, name, sv, clock=lambda: float(T0 + 5), min_version=2) not in (None, "RAISED"):
             fail("version 1 value accepted with min_version=2", name=name, signed=sv)
     edits = signed if tier != "quick" else signed[::23]
     for sec, name, want, ver, kv, sv in edits:
@@ -528,7 +531,7 @@ def standin(tier, seed):
                     fail("a field taken from another signed value was accepted", name=a[1], modified=m)
     # garbage never raises, never accepted
     garbage = ["", "abc", "2|", "2|x", "1|2|3", "2|1:0|10:1700000000|1:n|4:dmFs|", "2|-1:0|", "2|1_0:x", "2|1:0|x", "|", "||", "|||", "2|99999999999999999999:a",
-               "2|" + "9" * 5000 + ":a", "a|" + "9" * 5000 + "|c", "dmFs|abc|" + "0" * 40, "1000|a|b", "999|a", "\n", "2|1:0|\n", "é|é|é", "2|1:é|"]
+               "2|" + "9" * 5000 + ":a", "a|" + "9" * 5000 + "|c", "9" * 5000 + "|x", "1" + "0" * 4400 + "|", "dmFs|abc|" + "0" * 40, "1000|a|b", "999|a", "\n", "2|1:0|\n", "é|é|é", "2|1:é|"]
     garbage += ["".join(rng.choice("0129|:a=_-+ \n") for _ in range(rng.randint(0, 24))) for _ in range(300 if tier == "quick" else 6000)]
     for g in garbage:
         for sec in secrets:
